@@ -845,6 +845,9 @@ func (s *vSchema) genOne(o *vGenOpt, f *vField, t reflect.Type, depth int, singu
 	case vtBytes:
 		if b := o.bytes(); b != nil {
 			x.SetBytes(b)
+		} else if !singular {
+			x.SetBytes([]byte{}) // inside a oneof an empty value is an empty NON-NIL slice (what decoders build); a nil
+			// slice there only arises through the public API, see vAPIEmptyBytes
 		}
 	case vtID:
 		if o.rng.Intn(3) != 0 {
@@ -917,7 +920,14 @@ func (s *vSchema) gen(o *vGenOpt, m *vMsg, depth int) reflect.Value {
 			o.hist[fmt.Sprintf("oneof_%s_%d", m.name, f.num)]++
 			if f.ty == vtBytes && r.Intn(4) == 0 {
 				if o.quirks && r.Intn(2) == 0 {
-					o.hist["quirk_nilbytes"]++ // pcommon.Value.SetEmptyBytes(): wrapper with a nil slice
+					// an EMPTY bytes value exactly as the public API builds it (pcommon.Value.SetEmptyBytes):
+					// as the code stands a wrapper holding a nil slice (known finding C08-EMPTYBYTES)
+					if x := vAPIEmptyBytes(f.wrapper); x.IsValid() {
+						w = x
+						if w.Elem().Field(0).IsNil() {
+							o.hist["quirk_nilbytes"]++
+						}
+					}
 				} else {
 					w.Elem().Field(0).SetBytes([]byte{}) // what a decoder leaves for a present empty field
 				}
